@@ -284,7 +284,33 @@ def check_spellings() -> Tuple[int, List[Dict[str, Any]]]:
 
 # ---------------------------------------------------------------- jobs
 
+def check_sets(res: Dict[str, Any]) -> None:
+    """character sets with ranges: every set of <= 3 symbols over {a b c - ! ^ \\} against every one-character name; reference = fnmatch"""
+    import fnmatch
+    import warnings
+    from pydoctor.qnmatch import qnmatch
+    syms = 'abc-!^\\'
+    for n in range(1, 4):
+        for seq in itertools.product(syms, repeat=n):
+            pat = '[' + ''.join(seq) + ']'
+            for name in syms:
+                res['evals'] += 1
+                want = fnmatch.fnmatchcase(name, pat)
+                with warnings.catch_warnings():
+                    warnings.simplefilter('ignore')
+                    try:
+                        got: Any = qnmatch(name, pat)
+                    except Exception as e:  # noqa
+                        got = f'raises {type(e).__name__}'
+                if got != want:
+                    shape = 'reversed-or-open-range' if '-' in pat[2:-1] else 'other'
+                    res['violations'].append(core.violation(f'match/set-{shape}/{got if isinstance(got, str) else "differs"}'.replace(' ', '-'),
+                                                            f'qnmatch({name!r}, {pat!r}) is {got}, fnmatch says {want}', {'kind': 'set', 'pattern': pat, 'name': name}))
+            res['nontrivial_count'] += 1
+
+
 def jobs(tier: str) -> Iterable[Tuple[str, Any]]:
+    yield ('match:sets<=3', ('sets',))
     plen = 5 if tier == 'quick' else 7
     nlen = 5
     # (a) partition patterns by their first two symbols (plus the short ones)
@@ -378,6 +404,8 @@ def run_job(job: Any, tier: str) -> Dict[str, Any]:
                 if len(res['samples']) < 2 and moved:
                     res['samples'].append({'ops': list(seq), 'rules': [f'{l}:{p}' for l, p in SEQ_RULES]})
         core.bump(res, 'op_sequences', res['evals'])
+    elif kind == 'sets':
+        check_sets(res)
     elif kind == 'spell':
         n, vs = check_spellings()
         res['evals'] += n
@@ -402,4 +430,8 @@ def replay(case: Dict[str, Any]) -> List[Dict[str, Any]]:
         return run_ops(case['seq'])[0]
     if k == 'spelling':
         return [v for v in check_spellings()[1]]
+    if k == 'set':
+        res = core.result()
+        check_sets(res)
+        return [v for v in res['violations'] if v['case'] == case]
     raise ValueError(k)
